@@ -788,6 +788,47 @@ def _statement_groups(cx, port):
     return cands[0] if cands else []
 
 
+def _left_null_model(cx, rep, port, p, mod, left, init):
+    """LeftJoiner's constructor run on an abstract join map whose widest record has 3 (and 0) fields: what it stores as null_record must be
+    one match triple (no record number, that width, that many missing values).  None when the constructor cannot be evaluated."""
+    from .. import absexec as AX
+    hm = p.cls(mod, 'HashJoinMap', required=False)
+    hms = roles.methods(hm) if hm is not None else {}
+    verdict = True
+    for width in (3, 0):
+        selfv, jm = AX.Abs('Self'), AX.Abs('JoinMap')
+
+        def on_attr(ex, node, obj, attr, width=width):
+            if obj is jm and attr == 'max_record_len':
+                return width
+            return AX.NOT_HANDLED
+
+        def on_call(ex, node, fname, recv, args):
+            short = node.func.attr if isinstance(node.func, ast.Attribute) else fname
+            if recv is jm and short in hms and short not in ('build', 'get_join_records'):
+                return ex.call_fd(hms[short], [jm] + list(args))
+            return AX.NOT_HANDLED
+        ex = AX.Explorer(p, mod, on_call=on_call, on_attr=on_attr, max_choices=1)
+        ex.cls = 'LeftJoiner'
+        ex._script, ex._pos, ex.steps, ex.depth = [], 0, 0, 0
+        ex.run = AX.Run()
+        extra = [[AX.Abs('Name', id='H%d' % i_) for i_ in range(5)] for _ in init.args.args[2:]]     # any further parameter: a header of 5 names
+        try:
+            ex.call_fd(init, [selfv, jm] + extra)
+        except (Undecided, AX.Cut, AX._NeedChoice, AX.Raised, KeyError, IndexError, TypeError):
+            return None
+        nr_ = ex.run.state.get((selfv.uid, 'null_record'))
+        if not (isinstance(nr_, (list, tuple)) and len(nr_) == 1 and isinstance(nr_[0], (list, tuple)) and len(nr_[0]) == 3):
+            if nr_ is None:
+                return None
+            verdict = False
+            continue
+        a, b, c_ = nr_[0]
+        if not (a is None and b == width and isinstance(c_, list) and len(c_) == width and all(x is None for x in c_)):
+            verdict = False
+    return verdict
+
+
 def rule_jn_joiners(cx, rep, port):
     p = cx.port(port)
     mod = cx.engine_mod(port)
@@ -812,6 +853,9 @@ def rule_jn_joiners(cx, rep, port):
             width = '{}.max_record_len'.format(jm)
             txt = node_text(c_, 200)
             ok = is_none(a) and dotted(b) in (width, 'self.join_map.max_record_len') and (width in txt or 'self.join_map.max_record_len' in txt) and ('[None] *' in txt or 'fill(None)' in txt)
+    modelled_null = _left_null_model(cx, rep, port, p, mod, left, init)
+    if modelled_null is not None:
+        ok = modelled_null
     rep.decide(ok, 'LeftJoiner null record', nr[0] if nr else init, 'one match (None, max_record_len, [None]*max_record_len)', 'the LEFT JOIN null record is not a single (None, width, width x None) triple built from the widest B record')
 
     def lookup(e):
@@ -1030,9 +1074,10 @@ def _jn_key_functions(cx, rep, port, p, mod, ms):
 
 
 def _jn_build_model(cx, rep, port, p, mod, ms):
-    """HashJoinMap.build / get_join_records decided on an abstract B table: three records (2, 3 and 2 fields; the first and the third with the
-    same key) behind an iterator that then reports its end.  The map must hold, per key, the triples (record number from 1, field count,
-    the record itself) in read order; max_record_len must be 3; the iterator is asked exactly until it reports its end; an unknown key
+    """HashJoinMap.build / get_join_records decided on an abstract B table: four records (2, 3, 4 and 2 fields; the first and the third with
+    the same key, the fourth with the key None) behind an iterator that then reports its end - once with a single key column, once
+    with the composite key (record number, first column).  The map must hold, per key, the triples (record number from 1, field count,
+    the record itself) in read order; max_record_len must be 4; the iterator is asked exactly until it reports its end; an unknown key
     gives no matches.  True when the exploration could be carried out."""
     import collections
     from .. import absexec as AX
@@ -1040,84 +1085,97 @@ def _jn_build_model(cx, rep, port, p, mod, ms):
     b, gj = ms.get('build'), ms.get('get_join_records')
     if init is None or b is None or gj is None:
         return False
-    selfv, it = AX.Abs('Self'), AX.Abs('Iter')
-    k1, k2, other = AX.Abs('Key', id='K1'), AX.Abs('Key', id='K2'), AX.Abs('Key', id='K3')
-    r1 = [k1, AX.Abs('Fld', id='r1f1')]
-    r2 = [k2, AX.Abs('Fld', id='r2f1'), AX.Abs('Fld', id='r2f2')]
-    r3 = [k1, AX.Abs('Fld', id='r3f1')]
-    script = [r1, r2, r3, None, None]
-    asked = []
-    interned = {}
-
-    def on_call(ex, node, fname, recv, args):
-        short = node.func.attr if isinstance(node.func, ast.Attribute) else fname.split('.')[-1]
-        if recv is it and short == 'get_record':
-            asked.append(1)
-            return script[min(len(asked) - 1, len(script) - 1)]
-        if short.endswith('Error'):
-            return AX.Abs(short)
-        if fname == 'JSON.stringify' and len(args) == 1 and isinstance(args[0], (list, tuple)):
-            return interned.setdefault(tuple(id(x) for x in args[0]), AX.Abs('Json', items=tuple(args[0])))
-        if recv is None and short == 'defaultdict':
-            return collections.defaultdict(list)
-        if recv is None and short in ('Map', 'dict', 'OrderedDict'):
-            return {}
-        return AX.NOT_HANDLED
-    ex = AX.Explorer(p, mod, on_call=on_call, max_choices=1)
-    ex.cls = 'HashJoinMap'
-    ex._script, ex._pos, ex.steps, ex.depth = [], 0, 0, 0
-    ex.run = AX.Run()
-    try:
-        ex.call_fd(init, [selfv, it, [0]])
-        ex.call_fd(b, [selfv])
-        n_asked = len(asked)
-        m1 = ex.call_fd(gj, [selfv, k1])
-        m2 = ex.call_fd(gj, [selfv, k2])
-        m3 = ex.call_fd(gj, [selfv, other])
-        width = ex.run.state.get((selfv.uid, 'max_record_len'))
-    except AX.Raised as r:
-        rep.violated('B table build', b, 'building the join map over three well-formed B records raises {}'.format(getattr(r.value, 'kind', r.value)))
-        return True
-    except (Undecided, AX.Cut, AX._NeedChoice, KeyError, IndexError, TypeError) as e_:
-        import os
-        if os.environ.get('RBQL_VERIF_DEBUG'):
-            print('JN-BUILD build model gave up:', type(e_).__name__, e_)
-        return False
-
-    def triples(v):
-        if not isinstance(v, (list, tuple)):
-            return None
-        out = []
-        for t in v:
-            if not (isinstance(t, (list, tuple)) and len(t) == 3):
-                return None
-            out.append((t[0], t[1], t[2]))
-        return out
-    t1, t2, t3 = triples(m1), triples(m2), triples(m3)
     problems = {}
-    if t1 is None or t2 is None or t3 is None:
-        problems['match triple'] = 'B matches are not stored as (record number, field count, record)'
-    else:
-        nums = [x[0] for x in t1 + t2]
-        if sorted(nums) != [1, 2, 3] or [x[0] for x in t1] != [1, 3] or [x[0] for x in t2] != [2]:
-            if sorted(n_ for n_ in nums if isinstance(n_, int)) == [1, 2, 3] and [x[2] for x in t1] != [r1, r3]:
-                problems['B order'] = 'matches of a key are not kept in B order'
+    for key_indices in ([0], [-1, 0]):
+        selfv, it = AX.Abs('Self'), AX.Abs('Iter')
+        k1, k2, other = AX.Abs('Key', id='K1', distinct=True), AX.Abs('Key', id='K2', distinct=True), AX.Abs('Key', id='K3', distinct=True)
+        fld = lambda n_: AX.Abs('Fld', id=n_, distinct=True)  # noqa: E731
+        r1 = [k1, fld('r1f1')]
+        r2 = [k2, fld('r2f1'), fld('r2f2')]
+        r3 = [k1, fld('r3f1'), fld('r3f2'), fld('r3f3')]
+        r4 = [None, fld('r4f1')]
+        script = [r1, r2, r3, r4, None, None]
+        asked = []
+        interned = {}
+
+        def jkey(items, interned=interned):
+            return interned.setdefault(tuple(id(x) if isinstance(x, AX.Abs) else ('v', x) for x in items), AX.Abs('Json', items=tuple(items), distinct=True))
+
+        def on_call(ex, node, fname, recv, args, it=it, script=script, asked=asked, jkey=jkey):
+            short = node.func.attr if isinstance(node.func, ast.Attribute) else fname.split('.')[-1]
+            if recv is it and short == 'get_record':
+                asked.append(1)
+                return script[min(len(asked) - 1, len(script) - 1)]
+            if short.endswith('Error'):
+                return AX.Abs(short)
+            if fname == 'JSON.stringify' and len(args) == 1 and isinstance(args[0], (list, tuple)):
+                return jkey(args[0])
+            if recv is None and short == 'defaultdict':
+                return collections.defaultdict(list)
+            if recv is None and short in ('Map', 'dict', 'OrderedDict') and not args:
+                return {}
+            return AX.NOT_HANDLED
+        ex = AX.Explorer(p, mod, on_call=on_call, max_choices=1)
+        ex.cls = 'HashJoinMap'
+        ex._script, ex._pos, ex.steps, ex.depth = [], 0, 0, 0
+        ex.run = AX.Run()
+        multi = len(key_indices) > 1
+
+        def mk(nr_, k_):
+            if not multi:
+                return k_
+            return jkey([nr_, k_]) if port == 'js' else (nr_, k_)
+        try:
+            ex.call_fd(init, [selfv, it, list(key_indices)])
+            ex.call_fd(b, [selfv])
+            n_asked = len(asked)
+            look = lambda key_: ex.call_fd(gj, [selfv, key_])  # noqa: E731
+            if multi:
+                got = {'r1': look(mk(1, k1)), 'r3': look(mk(3, k1)), 'none': look(mk(2, k1))}
             else:
-                problems['B record number'] = 'B records are not numbered 1, 2, ... in read order (numbers stored: {})'.format(nums)
-        if [x[1] for x in t1 + t2] != [2, 2, 3]:
-            problems['bNF'] = 'bNF is not the field count of the B record (stored: {})'.format([x[1] for x in t1 + t2])
-        if not (len(t1) == 2 and t1[0][2] is r1 and t1[1][2] is r3 and len(t2) == 1 and t2[0][2] is r2):
-            problems.setdefault('B order', 'the records stored for a key are not the B records with that key, in read order')
-        if t3:
-            problems['lookup'] = 'a key that no B record has gives matches'
-    if width != 3:
-        problems['max width'] = 'after B records of 2, 3 and 2 fields max_record_len is {!r} instead of 3'.format(width)
-    if n_asked != 4:
-        problems['B end of input'] = 'the B iterator is asked for a record {} time(s) for a table of three records (must stop at the first end-of-table answer)'.format(n_asked)
+                got = {'kNone': look(None), 'k1': look(k1), 'k2': look(k2), 'none': look(other)}      # the None key first: nothing may be assumed about "the previous lookup"
+            width = ex.run.state.get((selfv.uid, 'max_record_len'))
+        except AX.Raised as r:
+            problems.setdefault('B table build', 'building the join map over four well-formed B records raises {}'.format(getattr(r.value, 'kind', r.value)))
+            continue
+        except (Undecided, AX.Cut, AX._NeedChoice, KeyError, IndexError, TypeError) as e_:
+            import os
+            if os.environ.get('RBQL_VERIF_DEBUG'):
+                print('JN-BUILD build model gave up:', type(e_).__name__, e_)
+            return False
+
+        def triples(v):
+            if not isinstance(v, (list, tuple)):
+                return None
+            out = []
+            for t in v:
+                if not (isinstance(t, (list, tuple)) and len(t) == 3):
+                    return None
+                out.append((t[0], t[1], t[2]))
+            return out
+        want = {'r1': [(1, 2, r1)], 'r3': [(3, 4, r3)], 'none': []} if multi else {'k1': [(1, 2, r1), (3, 4, r3)], 'k2': [(2, 3, r2)], 'kNone': [(4, 2, r4)], 'none': []}
+        title = 'composite key (bNR, first column)' if multi else 'single key column'
+        for name_, w in want.items():
+            t = triples(got[name_])
+            if t is None:
+                problems.setdefault('match triple', '{}: B matches are not stored as (record number, field count, record)'.format(title))
+                continue
+            if len(t) != len(w) or any(a[2] is not b_[2] for a, b_ in zip(t, w)):
+                problems.setdefault('lookup' if not w or name_ in ('kNone',) or multi else 'B order', '{}: the matches found for {} are records {} instead of {}'.format(title, {'k1': 'the key of records 1 and 3', 'k2': 'the key of record 2', 'kNone': 'the key None of record 4', 'none': 'a key no record has', 'r1': 'the key of record 1', 'r3': 'the key of record 3'}[name_], [x[0] for x in t], [x[0] for x in w]))
+                continue
+            if [a[0] for a in t] != [b_[0] for b_ in w]:
+                problems.setdefault('B record number', '{}: B records are not numbered 1, 2, ... in read order (numbers stored: {})'.format(title, [a[0] for a in t]))
+            if [a[1] for a in t] != [b_[1] for b_ in w]:
+                problems.setdefault('bNF', '{}: bNF is not the field count of the B record (stored: {})'.format(title, [a[1] for a in t]))
+        if width != 4:
+            problems.setdefault('max width', '{}: after B records of 2, 3, 4 and 2 fields max_record_len is {!r} instead of 4'.format(title, width))
+        if n_asked != 5:
+            problems.setdefault('B end of input', '{}: the B iterator is asked for a record {} time(s) for a table of four records (must stop at the first end-of-table answer)'.format(title, n_asked))
     good = {'B record number': 'bNR counts B records from 1', 'B end of input': 'stops at the first None record', 'match triple': 'matches are stored as (bNR, bNF, record)',
-            'B order': 'matches of a key are appended in B order', 'max width': 'max_record_len is the maximum of the B field counts', 'bNF': 'bNF = len(record)', 'lookup': 'returns the bucket of the key (empty when absent)'}
-    for k in ('B record number', 'B end of input', 'match triple', 'B order', 'max width', 'bNF', 'lookup'):
-        rep.decide(k not in problems, k, b, good[k] + ' (abstract B table of three records)', problems.get(k, ''))
+            'B order': 'matches of a key are appended in B order', 'max width': 'max_record_len is the maximum of the B field counts', 'bNF': 'bNF = len(record)', 'lookup': 'returns the bucket of the key (empty when absent)',
+            'B table build': 'the map is built without error'}
+    for k in ('B table build', 'B record number', 'B end of input', 'match triple', 'B order', 'max width', 'bNF', 'lookup'):
+        rep.decide(k not in problems, k, b, good[k] + ' (abstract B tables of four records, single and composite key)', problems.get(k, ''))
     return True
 
 
@@ -1163,7 +1221,8 @@ def rule_jn_build(cx, rep, port):
     b = ms['build']
     modelled = _jn_build_model(cx, rep, port, p, mod, ms)
     if not modelled:
-        _jn_build_shape(cx, rep, port, p, mod, ms)
+        with rep.as_fallback('HashJoinMap.build is outside the abstract interpreter'):
+            _jn_build_shape(cx, rep, port, p, mod, ms)
     if 'init' in ms or '__init__' in ms:
         ini = ms.get('__init__') or ms.get('init')
         m0 = [n for n in walk_no_nested(ini) if isinstance(n, ast.Assign) and dotted(n.targets[0]) == 'self.max_record_len']
@@ -1202,7 +1261,9 @@ def rule_jn_build(cx, rep, port):
         rep.decide(a_kind == b_kind and a_kind != '?', 'multi-key representation', lhs[0], 'both sides build a {}'.format(a_kind), 'A side builds {} keys but B side builds {} keys: no record would ever match'.format(a_kind, b_kind))
     gj = ms['get_join_records']
     rets = [r for r in walk_no_nested(gj) if isinstance(r, ast.Return)]
-    rep.decide(all('hash_map' in node_text(r.value) or node_text(r.value) in ('result', '[]') for r in rets), 'lookup', gj, 'returns the bucket of the key (empty when absent)', 'get_join_records does not return the bucket of its key')
+    if not modelled:
+      with rep.as_fallback('HashJoinMap.build is outside the abstract interpreter'):
+        rep.decide(all('hash_map' in node_text(r.value) or node_text(r.value) in ('result', '[]') for r in rets), 'lookup', gj, 'returns the bucket of the key (empty when absent)', 'get_join_records does not return the bucket of its key')
 
 
 def _pa_join_resolution(rep, rj):
